@@ -592,6 +592,11 @@ impl Cursor for BlockCursor {
     }
 
     fn seek(&mut self, key: &[u8]) -> Result<(), SError> {
+        // An empty block has nothing to seek to.
+        if self.block.restarts_boundary == 0 {
+            self.position = CursorPosition::Last;
+            return Ok(());
+        }
         // Make sure there are restarts.
         if self.block.num_restarts == 0 {
             CORRUPTION.click();
@@ -731,6 +736,11 @@ impl Cursor for BlockCursor {
     fn next(&mut self) -> Result<(), SError> {
         // We start with the first block.
         if let CursorPosition::First = self.position {
+            // An empty block has no first entry.
+            if self.block.restarts_boundary == 0 {
+                self.position = CursorPosition::Last;
+                return Ok(());
+            }
             self.seek_restart(0)?;
             return Ok(());
         }
